@@ -107,7 +107,8 @@ def main():
     dst = os.path.join(VERIF, 'seeded', sid)
     os.makedirs(dst, exist_ok=True)
     for f in ('patch.diff', 'demo.rs'):
-        shutil.copy(os.path.join(seed, f), os.path.join(dst, f))
+        if os.path.abspath(os.path.join(seed, f)) != os.path.abspath(os.path.join(dst, f)):
+            shutil.copy(os.path.join(seed, f), os.path.join(dst, f))
     prev = {}
     if skip and os.path.exists(os.path.join(dst, 'meta.json')):
         try:
